@@ -12,7 +12,7 @@ def T(name, q, th, th_shards=16, pkg="internal", race=False, q_timeout=300, th_t
 PROPS = {
     "C01": dict(tests=[T("TestVerifC01", 1500, 12000, shrinktime="0s", gomaxprocs=[16, 4, 2, 16])]),
     "C02": dict(tests=[T("TestVerifC02Pipeline", 15000, 200000)]),
-    "C03": dict(tests=[T("TestVerifC03Seq", 4000, 60000)]),
+    "C03": dict(tests=[T("TestVerifC03Seq", 4000, 60000), T("TestVerifC03Hybrid", 2000, 20000)]),
     "C04": dict(tests=[T("TestVerifC04Wheel", 20000, 300000), T("TestVerifC04Pipeline", 8000, 100000)]),
     "C05": dict(tests=[T("TestVerifC05Pipeline", 15000, 200000), T("TestVerifC05Pool", 8000, 100000),
                        T("TestVerifC05Conc", 40, 600, shrinktime="0s", gomaxprocs=[16, 4, 8, 16])]),
